@@ -244,9 +244,18 @@ func init() {
 			case r < 60:
 				emit("gaction %s", hx(pick(actions)))
 				stats["gaction"]++
-			case r < 65:
+			case r < 63:
 				emit("flags %d", rnd.IntN(2))
 				stats["flags"]++
+			case r < 65:
+				xs := []string{"main.version=1.2", "main.version=3", "example.com/a.Name=v", "novalue", "main.b=", "main.a=x=y"}
+				k := rnd.IntN(4)
+				line := "ldx"
+				for j := 0; j < k; j++ {
+					line += " " + hs(pick(xs))
+				}
+				emit("%s", line)
+				stats["ldx"]++
 			case r < 70:
 				emit(pick([]string{"magic", "entryoff"}))
 				stats["runtimehash"]++
